@@ -299,7 +299,6 @@ func vSearch(stack []*Reader, q string) (res vSearchRes, sts []*Stream) {
 		key = pq.Sorting[0].Key
 	}
 	ids, keys := []string{}, []string{}
-	distinct := map[string]bool{}
 	for _, st := range sts {
 		ids = append(ids, strconv.FormatUint(st.ID(), 10))
 		k := vSortKey(st, key)
@@ -307,15 +306,19 @@ func vSearch(stack []*Reader, q string) (res vSearchRes, sts []*Stream) {
 			k += "/" + vSortKey(st, pq.Sorting[1].Key)
 		}
 		keys = append(keys, k)
-		distinct[k] = true
 	}
-	if len(distinct) != len(keys) {
-		// ties: the order among equal keys is not part of the claim
-		if limit != 0 && more {
-			ids = []string{}
-		} else {
-			sort.Strings(ids)
+	// ties: the order among streams with equal sort keys is not part of the claim, and when the limit cut the
+	// result, the streams sharing the last key may be exchanged for others with the same key
+	for a := 0; a < len(keys); {
+		b := a
+		for b < len(keys) && keys[b] == keys[a] {
+			b++
 		}
+		sort.Strings(ids[a:b])
+		if b == len(keys) && limit != 0 && more {
+			ids = ids[:a]
+		}
+		a = b
 	}
 	res.IDs, res.Keys = vCompact(ids), vCompact(keys)
 	return
